@@ -181,6 +181,37 @@ impl Rig {
         Ok(out)
     }
 
+    /// Saturation: for `ms` virtual milliseconds the client keeps the sender's listener socket non-empty at every
+    /// instant (it is topped up with `burst` datagrams before every 50 ms step and the loop only gets a bounded
+    /// number of polls per step, fewer than it would need to empty the socket). No quiescence is awaited while the
+    /// flood lasts; everything that came out is returned.
+    pub async fn flood(&mut self, ms: u64, burst: usize, datagram: &dyn Fn(u64) -> Vec<u8>) -> Result<StepOut, String> {
+        let mut out = StepOut::default();
+        let mut n = 0u64;
+        let steps = ms / 50;
+        for _ in 0..steps {
+            self.vt += 50;
+            srtla_core::utils::verif_clock::set(T0 + self.vt);
+            tokio::time::advance(Duration::from_millis(50)).await;
+            // every poll of the loop handles at most one cooperative budget (128 operations) of datagrams: before
+            // each poll the socket is topped up with more than that, so the loop never sees it empty
+            for _ in 0..24 {
+                for _ in 0..burst {
+                    let d = datagram(n);
+                    n += 1;
+                    let _ = self.client.send_to(&d, self.listener);
+                }
+                self.sentinel()?;
+                tokio::task::yield_now().await;
+                self.drain(&mut out);
+            }
+            self.progress.fetch_add(1, std::sync::atomic::Ordering::Relaxed);
+        }
+        // the flood stops: let the loop work off what is left
+        self.settle(&mut out).await?;
+        Ok(out)
+    }
+
     /// Replace the content of the ips file the sender re-reads on SIGHUP.
     pub fn write_ips(&self, text: &str) -> Result<(), String> {
         std::fs::write(&self.ips_path, text).map_err(|e| format!("write ips file: {e}"))
@@ -207,7 +238,13 @@ where
         .event_interval(1)
         .build()
         .map_err(|e| format!("runtime: {e}"))?;
-    let rx = nb(StdUdp::bind("127.0.0.1:0").map_err(|e| e.to_string())?);
+    let rx = {
+        // a large receive buffer: a flood scenario forwards thousands of datagrams between two drains
+        let s = socket2::Socket::new(socket2::Domain::IPV4, socket2::Type::DGRAM, Some(socket2::Protocol::UDP)).map_err(|e| e.to_string())?;
+        s.set_recv_buffer_size(8 << 20).ok();
+        s.bind(&std::net::SocketAddr::from(([127, 0, 0, 1], 0)).into()).map_err(|e| e.to_string())?;
+        nb(s.into())
+    };
     let rx_addr = rx.local_addr().unwrap();
     let client = nb(StdUdp::bind("127.0.0.1:0").map_err(|e| e.to_string())?);
     // the sender binds its listener by port number: ports come from this process's slice of 30000..32400
